@@ -276,8 +276,10 @@ std::string check_text(const TextCase &k) {
                 why = judge(Pv, T, pb, "(const char8_t*, ST::string, mutable subject" + mode.substr(0, mode.size() - 1) + vm); if (!why.empty()) return why;
                 // on a const subject the same spelling converts `from` with the DEFAULT validation and then takes the deprecated
                 // overload, which ignores `validation`: judged as a default-validated C string
+                // (a library in which that member is const would honour `validation` here: that reading is accepted as well)
                 threw = lib_call(res, [&] { return ss.replace(pz8, ts, cs, val); });
-                why = judge(Pc, T, pbad, "(const char8_t*, ST::string, const subject" + mode.substr(0, mode.size() - 1) + vm); if (!why.empty()) return why;
+                why = judge(Pc, T, pbad, "(const char8_t*, ST::string, const subject" + mode.substr(0, mode.size() - 1) + vm);
+                if (!why.empty() && !judge(Pv, T, pb, std::string()).empty()) return why;
             }
             // self-referential: the subject as pattern and / or replacement
             threw = lib_call(res, [&] { return ss.replace(ss, ss, cs); });
